@@ -9,7 +9,7 @@ and counts are concrete per instance, contents symbolic: DESIGN.md 2.2).  `tier`
 """
 import subprocess
 
-ROTATE_PER_RUN = 6
+ROTATE_PER_RUN = 4
 
 
 REPO = "/repo"
@@ -151,8 +151,17 @@ PROPS["C19"] = {
 import json as _json, os as _os
 _SHAPES = _json.load(open(_os.path.join(_os.path.dirname(_os.path.abspath(__file__)), "shapes.json")))
 # quick tier: the shapes of G(2,3,2,3) with the most symbolic slots and those mixing empty productions
-_QUICK_SHAPES = {"g34_a22_b1_c0", "g24_a11_b11", "g24_a21_b11", "g23_a22_b2", "g23_a21_b2", "g23_a20_b2", "g23_a2_b22", "g23_a2_b21", "g23_a2_b20",
-                 "g23_a22_b0", "g23_a1_b20", "g23_a21_b1", "g23_a1_b21"}
+# quick tier (the 900 s budget of the every-change check decides its size): four shapes of two rules that
+# between them have the most symbolic slots, an empty production, a three-production rule and two
+# mutually dependent rules with an exit each; plus the G(3,4,3,3) maximum-cost instance that caught a
+# flaw in a repair.  Everything else of G(2,3,2,3) / G(2,4,2,3) rotates in by VERIF_SEED.
+_QUICK = {
+    "g23_a22_b2": ("min", "max", "term"),
+    "g23_a2_b20": ("path", "min", "max", "term"),
+    "g23_a21_b1": ("path", "min", "max", "term"),
+    "g24_a11_b11": ("min", "max", "term"),
+    "g34_a22_b1_c0": ("max",),
+}
 
 
 def _c17_instances():
@@ -161,27 +170,27 @@ def _c17_instances():
         tag = sh["tag"]
         b = (f"domain {sh['domain']}: {sh['rules']} rules incl. start, {sh['tokens']} tokens incl. EOF, productions "
              f"rule={sh['rule']} len={sh['len']} ({sh['slots']} symbolic slots), token costs 1..255, unwind {sh['unwind']}")
-        if tag in _QUICK_SHAPES:
-            tier = "quick"
-        elif sh["domain"] in ("g23", "g24"):
+        if sh["domain"] in ("g23", "g24"):
             tier = "rotate"
         else:
             tier = "thorough"
         no_cover = []
         for kind, term in (("path", ["has_path"]), ("min", ["rule_min_costs"]), ("max", ["rule_max_costs", "has_path"]),
                            ("term", ["rule_min_costs", "rule_max_costs", "has_path"])):
-            t = tier
-            if kind == "path" and sh["domain"] == "g34":
-                t = "thorough"  # 16 has_path calls per run: 6 min / 8 GB
+            t = "quick" if kind in _QUICK.get(tag, ()) else tier
             out.append(I(f"c17::c17_{kind}_{tag}", t, bounds=b, termination=term, shape=tag, kind=kind,
                          est_gb=6 if sh["domain"] == "g34" else 4))
-    # FIRST / nullable: Vob-based code, affordable only at a few small shapes (15-20 GB each): one shape in
-    # the quick tier (a chain of three rules ending in an empty production), the others thorough
-    for tag, b in (("a2_b1_c0", "3 user rules, productions len [2,1,0]"), ("a3_b0", "2 user rules, len [3,0]"),
-                   ("a21_b0", "2 user rules, len [2,1 | 0]"), ("a2_b2", "2 user rules, len [2 | 2]")):
-        out.append(I(f"c17::c17_first_{tag}", "quick" if tag == "a2_b1_c0" else "thorough",
-                     bounds="FIRST/nullable, " + b + ", all slots symbolic, unwind 6",
-                     est_gb=20, mem_gb=30, timeout_s=3600))
+    # FIRST / nullable: Vob-based code, affordable only at a few small shapes (5-20 GB each): the smallest
+    # (a chain of three rules ending in an empty production, one user token) in the quick tier
+    for tag, b, tier, est in (
+            ("t2_a1_b1_c0", "3 user rules in a chain, productions len [1,1,0], ONE user token", "quick", 8),
+            ("a1_b1_c0", "3 user rules in a chain, productions len [1,1,0]", "thorough", 12),
+            ("a2_b1_c0", "3 user rules, productions len [2,1,0]", "thorough", 20),
+            ("a3_b0", "2 user rules, len [3,0]", "thorough", 20),
+            ("a21_b0", "2 user rules, len [2,1 | 0]", "thorough", 20),
+            ("a2_b2", "2 user rules, len [2 | 2]", "thorough", 20)):
+        out.append(I(f"c17::c17_first_{tag}", tier, bounds="FIRST/nullable, " + b + ", all slots symbolic, unwind 6",
+                     est_gb=est, mem_gb=30, timeout_s=3600, est_s=400))
     return out
 
 
@@ -193,15 +202,16 @@ PROPS["C17"] = {
         "YaccGrammar::{iter_rules, rule_to_prods, prod, prod_to_rule, rules_len}",
     ],
     "bounds": {
-        "quick": "symbolic grammar domain G(2,3,2,3): 2 user rules + start rule, 3 user productions of length <= 2, "
-                 "2 user tokens + EOF; the 10 shapes with the most symbolic slots every run plus 2 further shapes "
-                 "per run chosen by VERIF_SEED (36 shapes in all); per shape EVERY symbol slot (token or user rule), "
+        "quick": "symbolic grammar domains G(2,3,2,3) / G(2,4,2,3): 2 user rules + start rule, 3-4 user productions of "
+                 "length <= 2, 2 user tokens + EOF; four shapes every run (a22_b2, a2_b20, a21_b1, a11_b11: min / max / "
+                 "termination, reachability on two of them), the maximum-cost instance of one G(3,4,3,3) shape, plus 4 "
+                 "further instances per run chosen by VERIF_SEED; per shape EVERY symbol slot (token or user rule), "
                  "every token cost in 1..255 and the candidate fixed point X are solver variables; unwind = derived "
-                 "bound (rules + 2 rounds of each fixed-point loop); FIRST/nullable at the shape a2_b1_c0 (three "
-                 "user rules, productions of length 2, 1, 0)",
+                 "bound (rules + 2 rounds of each fixed-point loop); FIRST/nullable at the shape a1_b1_c0 (a chain of "
+                 "three user rules, productions of length 1, 1, 0) with one user token",
         "thorough": "all 36 shapes of G(2,3,2,3) plus 7 hand-picked shapes of G(3,4,3,3) (3 user rules, 4 user "
                     "productions of length <= 3); FIRST/nullable as the least model of the textbook Horn system at "
-                    "the shapes a2_b1_c0, a3_b0, a21_b0, a2_b2 (all slots symbolic)",
+                    "the shapes a1_b1_c0, a2_b1_c0, a3_b0, a21_b0, a2_b2 (all slots symbolic)",
     },
     "outside_claim": [
         "FOLLOW (YaccFollows::new): out of memory at the smallest relevant shape (DESIGN 4, probe 21; again at "
@@ -262,9 +272,9 @@ PROPS["C12"] = {
         I("c12::c12_colon_f2", bounds="2 free chars (small instance)", termination=_SCANNERS),
         I("c12::c12_int_f2", bounds="2 free chars (small instance)", termination=_SCANNERS),
         I("c12::c12_ws_f3", bounds="3 free chars", termination=_SCANNERS, est_gb=5, mem_gb=16),
-        I("c12::c12_ws_block2", bounds="'/*' + 2 free chars", termination=_SCANNERS, est_gb=6, mem_gb=16),
+        I("c12::c12_ws_block2", "thorough", bounds="'/*' + 2 free chars", termination=_SCANNERS, est_gb=6, mem_gb=16),
         I("c12::c12_ws_line2", bounds="'//' + 2 free chars", termination=_SCANNERS, est_gb=6, mem_gb=16),
-        I("c12::c12_ws_mb3", bounds="widths [1,2,1]", termination=_SCANNERS, est_gb=6, mem_gb=16),
+        I("c12::c12_ws_mb3", "thorough", bounds="widths [1,2,1]", termination=_SCANNERS, est_gb=6, mem_gb=16),
         I("c12::c12_ws_block3", "thorough", bounds="'/*' + 3 free chars", termination=_SCANNERS, est_gb=10, mem_gb=16),
         I("c12::c12_ws_line3", "thorough", bounds="'//' + 3 free chars", termination=_SCANNERS, est_gb=10, mem_gb=16),
         I("c12::c12_ws_mb", "thorough", bounds="widths [1,2,1,1]", termination=_SCANNERS, est_gb=10, mem_gb=16),
@@ -317,7 +327,7 @@ PROPS["C10"] = {
         I("c12::c10_ws_f2", bounds="2 free chars over 7-letter alphabet (small instance)", termination=_SCANNERS),
         I("c12::c10_ws_f3", bounds="3 free chars over 7-letter alphabet", termination=_SCANNERS, est_gb=5, mem_gb=16),
         I("c12::c10_ws_block2", bounds="'/*' + 2 free chars", termination=_SCANNERS, est_gb=6, mem_gb=16),
-        I("c12::c10_ws_star2", bounds="'/**' + 2 free chars", termination=_SCANNERS, est_gb=6, mem_gb=16),
+        I("c12::c10_ws_star2", "thorough", bounds="'/**' + 2 free chars", termination=_SCANNERS, est_gb=8, mem_gb=16),
         I("c12::c10_ws_line2", bounds="'//' + 2 free chars", termination=_SCANNERS, est_gb=6, mem_gb=16),
         I("c12::c10_ws_linemb", "thorough", bounds="'//' + a 3-byte char + 1 free char", termination=_SCANNERS, est_gb=10,
           mem_gb=20, timeout_s=3600, no_cover=["newline where none is allowed"]),
